@@ -34,10 +34,19 @@ fn small() -> impl Strategy<Value = CallSet> {
         odd_ploidy: true,
         ..GenParams::default()
     };
-    (callset_strategy(params), prop::bool::weighted(0.12)).prop_map(|(mut cs, keep_odd)| {
+    (callset_strategy(params), prop::bool::weighted(0.12), prop::option::weighted(0.25, (any::<u16>(), any::<u16>()))).prop_map(|(mut cs, keep_odd, lone_dot)| {
         if !keep_odd {
             let all = vec![true; cs.samples.len()];
             make_selected_diploid(&mut cs, &all);
+        }
+        // a quarter of the call sets carry one genotype written as a lone `.` (the whole value
+        // missing; htslib stores it as one missing allele plus end-of-vector padding)
+        if let Some((r, smp)) = lone_dot {
+            if !cs.records.is_empty() {
+                let ri = pick_idx(r, cs.records.len());
+                let si = pick_idx(smp, cs.samples.len());
+                cs.records[ri].gts[si] = crate::gen::callset::Gt { alleles: vec![None], phased: vec![] };
+            }
         }
         cs
     })
@@ -234,7 +243,7 @@ fn eval(ctx: &Ctx, case: &Case) -> Verdict {
 pub fn check(ctx: &Ctx) -> Check {
     let parts: Vec<Box<dyn Part>> = vec![Box::new(RandomPart {
         name: "containers-transports-threads",
-        rule: "diploid call sets (incl. large cohorts of 120..400 samples so that 64 KiB blocks occur, and ~12% call sets that make the run fail) rendered as vcf / bgzf-vcf / bgzf-bcf / raw bcf with generated BGZF layouts (one line per block, 1-byte blocks, cuts inside lines and BCF records, 64 KiB payloads, stored/compressed, empty blocks first/middle/last, with and without EOF marker) x {path, stdin from file, stdin from pipe, a pipe named by path (/dev/stdin), a named pipe (mkfifo)} x BCF dictionaries with GT at index 5 or above 127 x --threads from {1,2,3,4,8,16} x repeated executions (unpinned, pinned to one CPU, pinned to two CPUs) x one further option per case (none / --project-shape / -p / --strict / -vv / -q) x four environments (Turkish/German locale, exotic time zone, RUST_LOG=trace, HOME unset-like, forced colour); >=3 populations of unequal size: ALL executions of a case must have byte-identical stdout and equal exit status (~24 executions per case); non-trivial = an input of >=3 BGZF blocks",
+        rule: "diploid call sets (incl. large cohorts of 120..400 samples so that 64 KiB blocks occur, ~12% call sets that make the run fail, and a quarter with one genotype written as a lone `.`) rendered as vcf / bgzf-vcf / bgzf-bcf / raw bcf with generated BGZF layouts (one line per block, 1-byte blocks, cuts inside lines and BCF records, 64 KiB payloads, stored/compressed, empty blocks first/middle/last, with and without EOF marker) x {path, stdin from file, stdin from pipe, a pipe named by path (/dev/stdin), a named pipe (mkfifo)} x BCF dictionaries with GT at index 5 or above 127 x --threads from {1,2,3,4,8,16} x repeated executions (unpinned, pinned to one CPU, pinned to two CPUs) x one further option per case (none / --project-shape / -p / --strict / -vv / -q) x four environments (Turkish/German locale, exotic time zone, RUST_LOG=trace, HOME unset-like, forced colour); >=3 populations of unequal size: ALL executions of a case must have byte-identical stdout and equal exit status (~24 executions per case); non-trivial = an input of >=3 BGZF blocks",
         cases: ctx.tier.pick(120, 3000),
         strategy: Box::new(|| strategy().boxed()),
         eval: Box::new(eval),
